@@ -33,7 +33,9 @@ LEVEL_NOTE = 'Trusted: Lean kernel; extractor; frozen tables; correspondence of 
 TECHNIQUE = 'Lean 4 proofs (emitter frame/add-key lemmas, table conformance, command shapes of all seven converters) + correspondence + argument-delta oracle on the real converters'
 
 SPEC = json.load(open(os.path.join(core.VERIF, 'spec', 'keys.json')))
-VALUES = ['x', 'a b', 'k=v', 'a:b', 'a,b', '%h/x', 'é', 'q"r', "it's", 'back\\slash', 'a=b=c', 'x y  z']
+VALUES = ['x', 'a b', 'k=v', 'a:b', 'a,b', '%h/x', 'é', 'q"r', "it's", 'back\\slash', 'a=b=c', 'x y  z',
+          # "value intact" also for what only the renderer can damage: non-ASCII white space, C1 controls, separators
+          'a\u0085b', 'x\u00a0y', 'p\u2028q', 'c\u009bd', 'w\u3000z', 't\tu']
 
 # documented option groups of the keys that are not plain table rows (value v is the effective text)
 SPECIAL = {
@@ -196,7 +198,8 @@ def oracle(ctx):
                 line = key + '=' + ' '.join(dq(w) for w in words)
                 exp_v = words
             elif m[0] in ('strv', 'strvl'):
-                words = [w for w in [v.replace(' ', '_').replace('\\', '_').replace('"', '_').replace("'", '_'), 'CAP_X']]
+                import re as _re
+                words = [w for w in [_re.sub(r'\s', '_', v).replace('\\', '_').replace('"', '_').replace("'", '_'), 'CAP_X']]
                 line = key + '=' + ' '.join(words)
                 exp_v = words
             elif m[0] == 'kv':
@@ -210,11 +213,14 @@ def oracle(ctx):
                 line = f'{key}={dq(v)}'
                 exp_v = v
             elif m[0] == 'devs':
-                words = rnd.sample(DEVS, 2)
+                # every form of the device specification in every run: three per case, stepping through the list
+                dk = getattr(ctx, '_devk', 0)
+                ctx._devk = dk + 3
+                words = [DEVS[(dk + j) % len(DEVS)] for j in range(3)]
                 line = key + '=' + ' '.join(words)
                 exp_v = words
         # Exec for containers so that "image then Exec args last" is observable
-        tail = ['Exec=run "the end"'] if ty == 'container' else []
+        tail = ['Exec=run "" "the end"'] if ty == 'container' else []   # (an empty argument is an argument)
         base_text = sec + '\n'.join(lines + tail) + '\n'
         new_text = sec + '\n'.join(lines + [line] + tail) + '\n'
         base_ops.append(f'convert\t0\t0\t{hx("/q/a." + ty)}\t{hx(base_text)}')
@@ -297,14 +303,14 @@ def oracle(ctx):
             fail = 'GlobalArgs must precede the subcommand'
         if kind != 'allg' and key != 'PodmanArgs' and '--pa' in na and not pos < na.index('--pa'):
             fail = f'PodmanArgs must follow the key-derived options ({want} at {pos}, --pa at {na.index("--pa")})'
-        if ty == 'container' and na[-2:] != ['run', 'the end']:
+        if ty == 'container' and na[-3:] != ['run', '', 'the end']:
             fail = f'the Exec arguments must come last: {na[-3:]}'
-        if ty == 'container' and 'localhost/img' in na and na.index('localhost/img') != len(na) - 3:
+        if ty == 'container' and 'localhost/img' in na and na.index('localhost/img') != len(na) - 4:
             fail = 'the image must directly precede the Exec arguments'
-        if ty == 'container' and 'Rootfs=/var/lib/rootfs' in text and na[-4:-2] != ['--rootfs', '/var/lib/rootfs']:
+        if ty == 'container' and 'Rootfs=/var/lib/rootfs' in text and na[-5:-3] != ['--rootfs', '/var/lib/rootfs']:
             fail = f'--rootfs and its path must directly precede the Exec arguments: {na[-5:]}'
         if ty == 'container' and key != 'PodmanArgs' and '--pa' in na and not fail:
-            obj = len(na) - (4 if 'Rootfs=/var/lib/rootfs' in text else 3)
+            obj = len(na) - (5 if 'Rootfs=/var/lib/rootfs' in text else 4)
             if na.index('--pa') + 2 != obj:
                 fail = f'PodmanArgs must sit directly before the object (image or --rootfs) at {obj}: --pa at {na.index("--pa")}'
         if fail:
